@@ -2053,7 +2053,7 @@ impl Connection {
             space.ecn_counters += x;
 
             if x.is_ce() {
-                space.pending_acks.set_immediate_ack_required();
+                space.pending_acks.congestion_experienced();
             }
         }
 
@@ -2897,6 +2897,9 @@ impl Connection {
             }
         }
 
+        self.spaces[packet.header.space()]
+            .pending_acks
+            .clear_congestion_experienced();
         if ack_eliciting {
             // In the initial and handshake spaces, ACKs must be sent immediately
             self.spaces[packet.header.space()]
